@@ -1,6 +1,7 @@
 package main
 
 import (
+	"go/token"
 	"fmt"
 	"go/ast"
 	"go/constant"
@@ -61,7 +62,10 @@ func (f *Frame) builtin(b *ssa.Builtin, cc *ssa.CallCommon, v ssa.Value, in ssa.
 		e.setComp(f.st, md, fmt.Sprintf("(store %s %s (store (select %s %s) %s false))", hd, m, hd, m, k))
 	case "print", "println":
 	case "recover":
-		f.vals[v] = e.symbolic(f.prefix+v.Name(), v.Type(), f.st, f.reach)
+		// only non-panicking executions are followed (a panic ends the path at the failing safety condition), so
+		// recover() finds nothing to recover
+		f.vals[v] = "nilIface"
+		e.note("recover() returns nil: executions that panic are not followed past the panic")
 	case "close":
 		e.note("close(chan) not modelled")
 	case "min", "max":
@@ -256,6 +260,15 @@ func (f *Frame) externalCall(callee *ssa.Function, args []string, argVals []ssa.
 	case "regexp.(*Regexp).MatchString":
 		if re, ok := f.regex[argVals[0]]; ok {
 			return one(fmt.Sprintf("(str.in_re %s %s)", args[1], re))
+		}
+		// a package-level *regexp.Regexp initialised once with regexp.MustCompile(<constant>) and never reassigned
+		if ld, ok := argVals[0].(*ssa.UnOp); ok && ld.Op == token.MUL {
+			if g, ok := ld.X.(*ssa.Global); ok {
+				if re, ok := e.P.globalRegex(g); ok {
+					e.note("assumed: the package-level regular expression %s is the language of its initialiser", g.Name())
+					return one(fmt.Sprintf("(str.in_re %s %s)", args[1], re))
+				}
+			}
 		}
 		return callOut{}, false
 	case "strings.Trim":
